@@ -324,9 +324,8 @@ def run(ctx):
 # new defect classes met by the sweep: (clause, predicate on (failure kind, clause feature, option))
 SWEEP_CLAUSES = [
     ("alias_in_body_expanded_at_call", lambda kind, feat, j: j[4] == "alias_in_body" and kind.startswith("reader:child_bash")),
-    ("command_V_ignores_functions", lambda kind, feat, j: feat == "printer_command_V"),
-    ("export_f_lists_variables", lambda kind, feat, j: feat == "export_listing"),
-    ("exported_function_attribute_not_shown", lambda kind, feat, j: feat == "export_attr"),
+    # repaired, now tripwires (compared with bash as positive cases; a return of the old behaviour is a VIOLATION):
+    # command_V_ignores_functions, export_f_lists_variables, exported_function_attribute_not_shown
     # `$( … case x in pat) … esac … )`: the `)` of a pattern written without its `(` ends the substitution
     ("case_pattern_ends_command_substitution",
      lambda kind, feat, j: kind == "not_defined" and j[3] == "cmdsubst" and j[1] % 2 == 0 and "k_case" in g.features(j[0])),
